@@ -124,10 +124,17 @@ pub fn render_items(items: &[CItem], err: &str, out: &mut String) {
             CItem::Mark(k) => out.push_str(&format!("<script>mark({})</script>", k)),
             CItem::If(branches, els) => {
                 for (i, (c, body)) in branches.iter().enumerate() {
-                    let ct = match c {
-                        Cond::True => "v1 == 1".to_string(),
-                        Cond::False => "v1 == 2".to_string(),
-                        Cond::Err => err.to_string(),
+                    // the same truth value in different shapes: a comparison, a non-zero / zero integer
+                    // (also a negative one), chosen by the first mark number of the branch
+                    let shape = body.iter().find_map(|x| if let CItem::Mark(k) = x { Some(*k) } else { None }).unwrap_or(0) % 3;
+                    let ct = match (c, shape) {
+                        (Cond::True, 0) => "v1 == 1".to_string(),
+                        (Cond::True, 1) => "v1".to_string(),
+                        (Cond::True, _) => "v1 - 2".to_string(),
+                        (Cond::False, 0) => "v1 == 2".to_string(),
+                        (Cond::False, 1) => "v1 - 1".to_string(),
+                        (Cond::False, _) => "v1 - v1".to_string(),
+                        (Cond::Err, _) => err.to_string(),
                     };
                     if i == 0 {
                         out.push_str(&format!("<if cond=\"{}\">", xml_attr(&ct)));
@@ -293,6 +300,11 @@ pub fn gen_case(seed: u64, index: u64) -> Case {
 pub fn render(c: &Case) -> String {
     let mut block = String::new();
     render_items(&c.items, &c.err, &mut block);
+    // rfsm-expression: one more kind of unusable location — a computed NEGATIVE array index
+    // (ECMAScript would simply create the property "-1")
+    if c.dm == "rfsm-expression" && c.err == "nosuch(1)" {
+        block = block.replace("location=\"zz9\"", "location=\"arr[v1 - 2]\"");
+    }
     let (entry, trans, exit) = match c.place.as_str() {
         "onentry" => (block.clone(), String::new(), String::new()),
         "transition" => (String::new(), block.clone(), String::new()),
@@ -303,7 +315,7 @@ pub fn render(c: &Case) -> String {
     // same kind follows (marks 900/901/902) and must always run.
     format!(
         "<scxml xmlns=\"http://www.w3.org/2005/07/scxml\" version=\"1.0\" datamodel=\"{dm}\" name=\"m\" initial=\"s0\">\
-         <datamodel><data id=\"v0\" expr=\"0\"/><data id=\"v1\" expr=\"1\"/></datamodel>\
+         <datamodel><data id=\"v0\" expr=\"0\"/><data id=\"v1\" expr=\"1\"/><data id=\"arr\" expr=\"[1,2,3]\"/></datamodel>\
          <state id=\"top\">\
            <transition event=\"error.execution\"><script>mark(990)</script></transition>\
            <transition event=\"r0\"><script>mark(980)</script></transition>\
